@@ -660,3 +660,110 @@ def fabric_start(scripts=(("start",), ("start",)), pool=4, prestarted=False):
     sc.spawned[ncallers + j] = threads[j]
   sc.info = {"ncallers": ncallers, "pool": pool, "scripts": [list(x) for x in scripts],              "lock_attrs": [k for k, v in attrs.items() if isinstance(v, M.MRLock)]}
   return sc
+
+
+# ---- a timed post at capacity (C31 under every interleaving of the caller with the rejected source's thread) ----------------------
+def rejecting(deferred=True, times=1, kind="fifo", capacity=2, pending=0):
+  """thread 0 makes a timed post while the object already tracks `capacity` sources: the real post_fifo/post_lifo -> __post_event,
+  translated whole (capacity test, run flag, spec, Thread(...), start, tracking record).  A thread the code creates is compiled on the
+  spot from its target (the real post_event_thread_runner closure) and can run from the moment start() was called on it."""
+  import miros.activeobject as ao
+  sc = Scenario("rejecting")
+  sig = signals_ns(sc)
+  EV = RecordClass("event", ["signal", "signal_name"])
+  ev_new = EV.new(signal=SK(11, 11), signal_name=SK(sc.strings.code("W_REJECTED"), "W_REJECTED"))
+  pend = [EV.new(signal=SK(13, 13), signal_name=SK(sc.strings.code("P%d" % i), "P%d" % i)) for i in range(pending)]
+  sc.ghost.update({"g.rejected": 0, "g.accepted": 0, "g.posts_by_new": 0, "g.dispatched": 0})
+
+  class NewSourceDeque(M.MDeque):
+    """pending-event deque: counts, in ghost state, the insertions made by a thread the post itself created"""
+
+    def apply(self, B, st, op, args, tid):
+      outs = super().apply(B, st, op, args, tid)
+      if op in ("append", "appendleft") and tid >= 2:
+        return [(c, k, r, dict(up, **{"g.posts_by_new": B.add(st["g.posts_by_new"], B.const(1))})) for (c, k, r, up) in outs]
+      return outs
+  Q = sc.add(M.MQueue("Q", 4, count=len(pend)))
+  D = sc.add(NewSourceDeque("D", 4, items=[e.rid for e in pend]))
+  sc.elem_typ["D"] = ("rec", EV)
+  task_event = sc.add(M.MEvent("task_event", 1))
+  fabric_event = sc.add(M.MEvent("fabric_event", 1))
+  PE = RecordClass("PostedEvent", ["signal_name", "task_run_event", "uuid"])
+  SPEC = RecordClass("PostedEventThreadSpec", ["event", "queue_type", "total_times", "deferred", "period", "task_run_event"])
+  old_flags = []
+  recs = []
+  for i in range(capacity):
+    f = sc.add(M.MEvent("old%d.run" % i, 1))
+    old_flags.append(f)
+    recs.append(PE.new(signal_name=SK(sc.strings.code("W_OLD%d" % i), "W_OLD%d" % i), task_run_event=SO(f), uuid=SK(20 + i, 20 + i)))
+  T = sc.add(M.MDeque("tracked", capacity, items=[r.rid for r in recs]))
+  sc.elem_typ["tracked"] = ("rec", PE)
+  sleep = sc.add(M.MSleep("time"))
+  sc.modules["time"] = SNs({"sleep": SI(lambda comp, a, k: comp.op(sleep, "sleep", [], want=0))}, "time")
+  sc.globals["time"] = sc.modules["time"]
+  sc.globals["pp"] = SI(lambda comp, a, k: SK(NONE, None), "pp")
+  sc.modules["uuid"] = SNs({"uuid4": SI(lambda comp, a, k: SK(29, 29))}, "uuid")
+  sc.globals["uuid"] = sc.modules["uuid"]
+  new_flag = sc.add(M.MEvent("new.run", 0))
+  sc.by_identity.append((ao.ThreadEvent, SI(lambda comp, a, k: SO(new_flag), "ThreadEvent")))
+  new_thread_model = sc.add(M.MThread("new.thread", prog=2, state=0))
+  sc.ignored_attr_stores |= {"name", "daemon"}
+  ld = PyObj(ao.LockingDeque, {"deque": D, "locking_queue": Q}, "locking_deque")
+  obj = PyObj(ao.ActiveObject, {"queue": ld, "locking_deque": ld, "instrumented": False, "live_spy": False, "live_trace": False,
+                                "activeobject_task_event": task_event, "fabric_task_event": fabric_event, "posted_events_queue": T,
+                                "__class__": SNs({"QUEUE_SIZE": capacity}, "ActiveObject class"),
+                                "PostedEventThreadSpec": SI(lambda comp, a, k: SPEC.intern(**k), "PostedEventThreadSpec"),
+                                "PostedEvent": SI(lambda comp, a, k: PE.intern(signal_name=a[0], task_run_event=a[1], uuid=SK(29, 29)), "PostedEvent")},
+               "active_object")
+  sc.class_intrinsics.append((ao.HsmEvent, lambda comp, a, k: EV.intern(signal=k["signal"], signal_name=SK(sc.strings.code("STOP"), "STOP"))))
+  spawned_programs = []
+
+  def new_thread(comp, args, kwargs):
+    target = kwargs.get("target")
+    targs = kwargs.get("args")
+    if spawned_programs:
+      raise TranslationError("more than one Thread(...) on the translated path")
+    c2 = Compiler(sc, 2, "new-source-thread")
+    c2.call_function(target, list(targs.items), {})
+    c2._emit(ir.Op(target=new_thread_model, name="finish", args=[], exc={}, dst=None))
+    spawned_programs.append(c2.finish())
+    return SO(new_thread_model)
+  sc.class_intrinsics.append((ao.Thread, new_thread))
+
+  def ghost_dispatch(comp, args, kwargs):
+    comp.ghost(lambda B, st, tid: {"g.dispatched": B.add(st["g.dispatched"], B.const(1))}, "dispatch")
+    return SK(NONE, None)
+  sc.method_intrinsics[("HsmWithQueues", "dispatch")] = lambda comp, self_val, args, kwargs: ghost_dispatch(comp, args, kwargs)
+
+  def mark(name):
+    def intr(comp, args, kwargs):
+      comp.ghost(lambda B, st, tid: {name: B.const(1)}, name)
+      return SK(NONE, None)
+    return SI(intr)
+  src = """
+  def caller(ao, e, period, times, deferred):
+    try:
+      POST(e, period=period, times=times, deferred=deferred)
+      accepted()
+    except ActiveObjectOutOfPostedEventResources:
+      rejected()
+
+  def consumer_main(ao, task_event, fabric_event, queue):
+    ao.run_event(task_event, fabric_event, queue)
+  """
+  c = Compiler(sc, 0, "caller")
+  post = c.get_attr(SP(obj), "post_lifo" if kind == "lifo" else "post_fifo")
+  c.call_function(SF(node=driver(src, "caller"), closure={"POST": post, "accepted": mark("g.accepted"), "rejected": mark("g.rejected")},
+                     qualname="scenario.caller", globs={}),
+                  [SP(obj), ev_new, SK(1, 1.0), SK(times, times), SK(1 if deferred else 0, deferred)], {})
+  sc.programs.append(c.finish())
+  c = Compiler(sc, 1, "consumer")
+  c.call_function(SF(node=driver(src, "consumer_main"), closure={}, qualname="scenario.consumer_main", globs={}),
+                  [SP(obj), SO(task_event), SO(fabric_event), SP(ld)], {})
+  sc.programs.append(c.finish())
+  if spawned_programs:
+    sc.programs.append(spawned_programs[0])
+    sc.spawned[2] = new_thread_model
+  sc.info = {"capacity": capacity, "deferred": deferred, "times": times, "kind": kind, "pending": pending, "old_flags": [f.name for f in old_flags],
+             "thread_created_on_translated_path": bool(spawned_programs)}
+  return sc
